@@ -33,5 +33,8 @@ def step (ls : List Lock) (ws : List String) : List Lock × String :=
   | ["dump"] => (ls, showList ls)
   | _ => (ls, "bad-op")
 
-def run : IO Unit := runLoop ([] : List Lock) step
 end BbRe.Drivers.BRL
+
+def main (_args : List String) : IO UInt32 := do
+  BbRe.Drivers.runLoop ([] : List BbRe.BRL.Lock) BbRe.Drivers.BRL.step
+  return 0
